@@ -546,7 +546,7 @@ def w_manager_history(ctx, rng, i):
     for step in range(n_ops):
         op = ["set", "set", "set", "get", "delete", "iterate", "copy", "assign_to_owner", "transform_owner", "none_key",
               "edit_assigned", "bad_dims", "bad_type", "edit_stored", "set_own_group", "set_own_group", "assign_own_manager",
-              "delete_none_key", "empty_group_and_dimension_change", "bulk_update", "bulk_update_mixed"][rng.integers(0, 21)]
+              "delete_none_key", "empty_group_and_dimension_change", "bulk_update", "bulk_update_mixed", "convert_owner"][rng.integers(0, 22)]
         if op == "set":
             name = NAMES[rng.integers(0, len(NAMES))]
             val = gen.shape(rng, None, d=d, n=int(rng.integers(3, 7)))
@@ -603,6 +603,22 @@ def w_manager_history(ctx, rng, i):
                 owner2.landmarks["extra"] = gen.shape(rng, "PointCloud", d=d, n=3)
                 if digest(lm) != before:
                     ctx.fail("edit_of_owner_landmarks_reaches_the_assigned_manager", cls="LandmarkManager")
+        elif op == "convert_owner":
+            # the owner (an image) converted to its masked / unmasked sibling - sharing the pixels or not, as asked: the landmarks put
+            # onto the new image are its own, nothing done to them reaches the manager they came from
+            import menpo.image as _mi6
+            if isinstance(owner, _mi6.Image) and not isinstance(owner, _mi6.BooleanImage) and owner.has_landmarks:
+                cp = bool(rng.random() < 0.5)
+                conv = owner.as_unmasked(copy=cp) if isinstance(owner, _mi6.MaskedImage) else owner.as_masked(copy=cp)
+                before = digest(owner.landmarks)
+                ctx.tap("landmarks_of_a_converted_owner", "calls"); ctx.tap("landmarks_of_a_converted_owner", "checked")
+                if conv.landmarks.n_groups:
+                    for g_ in conv.landmarks.group_labels:
+                        perturb(conv.landmarks[g_].points)
+                    del conv.landmarks[conv.landmarks.group_labels[0]]
+                conv.landmarks["only on the converted image"] = gen.shape(rng, "PointCloud", d=d, n=3)
+                if digest(owner.landmarks) != before:
+                    ctx.fail("edit_of_owner_landmarks_reaches_the_assigned_manager", cls="LandmarkManager", mech="converted_owner:copy=%s" % cp)
         elif op == "transform_owner" and hasattr(owner, "points"):
             t = mt.Translation(rng.uniform(-2, 2, d))
             moved = t.apply(owner)
